@@ -1,6 +1,6 @@
 (* C01 property theorems: statements only. *)
 From Coq Require Import List String Permutation Sorted.
-From PAFC01 Require Import ModelTree Sorting Proofs Proofs2.
+From PAFC01 Require Import ModelTree Sorting Proofs Proofs2 Proofs3.
 Import ListNotations.
 
 (* the advertised parameter order is strictly increasing in parameter id, has no repeats, lists
@@ -57,7 +57,21 @@ Theorem C01_tuple : forall (V : Type) (bin : binop -> V -> V -> V) (args : nat -
              nth i vs IMissing = inst V bin args c.
 Proof. exact tuple_in_position_order. Qed.
 
+(* supplying the values by path (one path per parameter, as advertised) gives the same instance as
+   supplying them as a physical vector; the unit-vector route is the vector route applied to the
+   values the priors return (instance_from_unit_vector builds the same {prior: value} dictionary) *)
+Theorem C01_routes : forall (V : Type) (bin : binop -> V -> V -> V) (n : node V) (vec : list V),
+  wf V n -> List.length vec = prior_count V n ->
+  inst_from_paths V bin n (combine (unique_prior_paths V n) vec) = inst_from_vector V bin n vec.
+Proof. exact path_route. Qed.
+
+(* every advertised path resolves to the parameter it is advertised for *)
+Theorem C01_paths_resolve : forall (V : Type) (n : node V), wf V n ->
+  forall p q, In (p, q) (walk V n) -> prior_at V p n = Some q.
+Proof. exact walk_prior_at. Qed.
+
 Print Assumptions C01_order.
+Print Assumptions C01_routes.
 Print Assumptions C01_ith_path.
 Print Assumptions C01_placement.
 Print Assumptions C01_tuple.
